@@ -63,7 +63,7 @@ def bounds(tier):
     return {"tier": tier, "events": len(Gl.EVENTS),
             "histories": "depth 2 under 3 configurations, depth 1 under all 12" if tier == "quick" else "depth 3 under 2 configurations, depth 2 under all 12",
             "schedules": "all schedules with <= 1 preemption, 2 threads, line granularity, 14 harness pairs; <= 2 preemptions at function-entry granularity for 5 small operator-form harnesses (line granularity in thorough); fresh-process (lazy import) variant for 3 pairs" if tier == "quick"
-            else "<= 2 preemptions for object-backend pairs, <= 1 otherwise, 2 and 3 threads; fresh-process variant for 6 pairs"}
+            else "<= 2 preemptions at line granularity for object-backend pairs (obj_inplace_shared: <= 1 at line granularity and <= 2 at function-entry granularity; two preemptions at line granularity would be ~1.3e6 schedules there), <= 1 otherwise, 2 and 3 threads; fresh-process variant for 6 pairs"}
 
 
 def shards(tier):
@@ -96,6 +96,12 @@ def shards(tier):
                 nsl = 16 if BOUND2[name] == "line" else 1
                 for k in range(nsl):
                     out.append({"kind": "schedule", "harness": name, "bound": 2, "fresh": False, "granularity": BOUND2[name], "slice": [k, nsl]})
+        elif harness_bound(name, tier) == 2 and name in LINE_BOUND2_INFEASIBLE:
+            # ~1600 line-level scheduling points: two preemptions at line granularity are ~1.3e6 schedules (about 15 CPU hours);
+            # explored with <= 1 preemption at line granularity and <= 2 preemptions at function-entry granularity (~5e4 schedules)
+            out.append({"kind": "schedule", "harness": name, "bound": 1, "fresh": False})
+            for k in range(4):
+                out.append({"kind": "schedule", "harness": name, "bound": 2, "fresh": False, "granularity": "entry", "slice": [k, 4]})
         elif harness_bound(name, tier) == 2:
             # bound 2 at line granularity is quadratic in the number of scheduling points: split by first-level deviation
             for k in range(16):
@@ -466,6 +472,9 @@ HARNESSES.update({"np2_truediv": _h_np2_truediv, "np2_mul_neg": _h_np2_mul_neg, 
 HARNESSES.update({"ak_same_op_params": _h_ak_same_op_params, "np_same_op_params": _h_np_same_op_params, "obj_same_op_params": _h_obj_same_op_params})
 EXTRA_HARNESSES = {"np_three_threads": _h_np_three, "obj_three_threads": _h_obj_three,
                    "np2_add_shared": _h_np2_add_shared, "obj2_add_shared": _h_obj2_add_shared, "ak2_scale_vs_Array": _h_ak2_scale_vs_Array}
+
+
+LINE_BOUND2_INFEASIBLE = {"obj_inplace_shared"}
 
 
 def harness_bound(name, tier):
